@@ -70,6 +70,7 @@ type modWorld struct {
 	nextTag int64
 	handles map[int64]*modifier.Instance
 	events  []term.T
+	total   int
 }
 
 func (w *modWorld) name(n int64) key.Modifier { return key.Modifier(fmt.Sprintf("vm%d_%d", w.uid, n)) }
@@ -103,7 +104,20 @@ func (w *modWorld) mi(m info.Modifier) term.T {
 		term.I(intOf(m.CountAddWhenStack)), term.B(m.CanDispel))
 }
 
-func (w *modWorld) rec(t term.T) { w.events = append(w.events, t) }
+// a history whose listener scripts re-add and re-remove stacking modifiers at every nesting level can record
+// millions of events (gigabytes): such a case is given up and reported as CaseTooLarge, which the orchestrator
+// counts among the discarded oversize cases (nothing is learnt from it that smaller cases do not show)
+const modMaxEvents = 60000
+
+type modTooLarge struct{}
+
+func (w *modWorld) rec(t term.T) {
+	w.total++
+	if w.total > modMaxEvents {
+		panic(modTooLarge{})
+	}
+	w.events = append(w.events, t)
+}
 
 func selOf(m *modifier.Instance, s term.T) key.TargetID {
 	n, a := term.Ctor(s)
@@ -370,7 +384,16 @@ func (w *modWorld) doOp(o term.T) int64 {
 }
 
 // input: (world, seed, depth, ops); output: Obs [(result, lists, events)] per op
-func runModifier(in term.T) term.T {
+func runModifier(in term.T) (res term.T) {
+	defer func() {
+		if r := recover(); r != nil {
+			if _, ok := r.(modTooLarge); ok {
+				res = term.C("CaseTooLarge")
+				return
+			}
+			panic(r)
+		}
+	}()
 	it := term.TupleItems(in)
 	w := newModWorld(it[0], term.Int(it[1]), int(term.Int(it[2])))
 	out := []term.T{}
@@ -459,7 +482,8 @@ func genCfg(r *term.Rng, ncat int, i int, quiet bool) term.T {
 			if k == "LProp" && n > 1 {
 				n = 1
 			}
-			if (k == "LRemove" || k == "LDispel") && r.Chance(1, 3) {
+			if (k == "LRemove" || k == "LDispel") && i == 0 && r.Chance(1, 2) {
+				// (only on the first config of a case: on every config the nested histories explode)
 				// a removal listener that attaches several modifiers to the unit whose list is being cut:
 				// the batch being announced must not be disturbed by them
 				for j := r.Range(2, 3); j > 0; j-- {
